@@ -206,6 +206,7 @@ int compatible_types2(int, int);
 void arrange_call_inherited(char *, parse_node_t *);
 int define_new_function(char *, int, int, uint64_t, int);
 void check_argument_count(int64_t num, int extra);
+int check_global_index(int n);
 int define_new_variable(char *, int);
 short store_prog_string(const char *);
 void free_prog_string(int);
